@@ -69,6 +69,40 @@ Section Shape.
       exists (fst e). rewrite <- Hsnd. destruct e. eapply Permutation_in; [exact Hp|exact He].
     - rewrite map_length. cbn [length] in *. lia.
   Qed.
+  (* a produced range: same prefix, first <= last, as many values as codes, every code a key of the map *)
+  Lemma compress_range_codes (es : list (entry V)) f l vals :
+    wf_entries V es -> In (f, l, vals) (snd (compress link mkvals es)) ->
+    exists k a b vs, f = k ++ [a] /\ l = k ++ [b] /\ a <= b /\ b < 256 /\ vals = mkvals vs /\
+                     N.of_nat (length vs) = b - a + 1 /\
+                     (forall x, a <= x -> x <= b -> exists v, In (k ++ [x], v) es).
+  Proof.
+    intros Hwf Hin. unfold compress in Hin. cbn [snd] in Hin.
+    set (sorted := sort_entries es) in *.
+    assert (Hp : Permutation sorted es) by apply sort_perm.
+    assert (Hwf' : wf_entries V sorted) by (eapply wf_entries_perm; [apply Permutation_sym|]; eauto).
+    assert (Hok : Forall (run_ok V link) (build_runs link sorted)) by (apply build_runs_ok; [assumption|apply sort_sorted]).
+    assert (Hent : flat_map (run_entries V) (build_runs link sorted) = sorted).
+    { apply build_runs_entries. intros e He. unfold wf_entries in Hwf'. rewrite Forall_forall in Hwf'. apply Hwf'. assumption. }
+    unfold ranges_of in Hin. apply in_flat_map in Hin as (rn & Hrn & Hin).
+    destruct (run_range_spec V mkvals rn f l vals Hin) as (a & b & items & Hs & -> & -> & ->).
+    rewrite Forall_forall in Hok. destruct (Hok rn Hrn) as (Hne & Hc & Hf).
+    rewrite Hs in *. exists (fst rn), (fst a), (fst (last (a :: b :: items) a)), (map snd (a :: b :: items)).
+    assert (Hlast : fst a + N.of_nat (length (b :: items)) < 256).
+    { rewrite <- (consec_last V link a (b :: items) a Hc). rewrite Forall_forall in Hf. apply Hf.
+      apply (@exists_last _ (a :: b :: items)) in Hne as (l' & z & E'). rewrite E', last_last. apply in_or_app. right. left. reflexivity. }
+    rewrite (consec_last V link a (b :: items) a Hc).
+    split; [reflexivity|]. split; [reflexivity|]. split; [lia|]. split; [lia|]. split; [reflexivity|]. split.
+    - rewrite map_length. cbn [length] in *. lia.
+    - intros x Hx1 Hx2. set (i := N.to_nat (x - fst a)).
+      assert (Hi : (i < length (a :: b :: items))%nat) by (unfold i; cbn [length] in *; lia).
+      destruct (nth_error (a :: b :: items) i) as [xv|] eqn:E; [|apply nth_error_None in E; lia].
+      pose proof (consec_nth V link _ _ _ a Hc E) as Hxv. cbn [hd] in Hxv.
+      exists (snd xv). eapply Permutation_in; [exact Hp|]. rewrite <- Hent.
+      apply in_flat_map. exists rn. split; [assumption|]. unfold run_entries. rewrite Hs.
+      assert (Hxx : fst xv = x) by (unfold i in Hxv; lia).
+      apply in_map_iff. exists xv. split; [|eapply nth_error_In; eauto].
+      clear -Hxx. destruct xv as [x' v']. cbn [fst snd] in *. subst x'. reflexivity.
+  Qed.
 End Shape.
 
 (* ---- code space -------------------------------------------------------------- *)
